@@ -23,7 +23,7 @@ class Prop(BaseProp):
     exec_import = "From BHW Require Import Lib.Base Exec.Common Exec.Bip32E Exec.C05.\nFrom Coq Require Import String.\nOpen Scope string_scope."
     shard = 8
     rule = ("Addr: private and public-only nodes (scalars 1, n-1, random; points of both parities, x with leading zero bytes, HASH160 of the "
-            "compressed / uncompressed key with a leading zero byte) x both networks: the five "
+            "compressed / uncompressed key with a leading zero byte, private keys stored in the 33-byte parsed form) x both networks: the five "
             "BaseWallet address methods and uncompressed P2PKH; each address decoded in Coq (Base58Check / segwit) and compared with the Spec "
             "payload built from HASH160/SHA-256 of the compressed key or of the standard script. Rmd: ripemd160 on every length 0..1024 (thorough; "
             "quick: 0..200 and the 55/56/63/64/119/120/127/128 neighbourhoods) against the Coq model and OpenSSL's ripemd160 when available. "
@@ -57,6 +57,10 @@ class Prop(BaseProp):
                     cases.append({"kind": "Addr", "prv": True, "key": k.to_bytes(32, "big").hex(), "testnet": testnet})
                 else:
                     cases.append({"kind": "Addr", "prv": False, "key": pubkey_of_scalar(k).hex(), "testnet": testnet})
+        # private nodes as PrvKeyNode.parse stores them: 33 bytes, 0x00 || k (what from_extended_key(xprv) hands to the address methods)
+        for k in (ks[3], ks[-1], 1):
+            for testnet in (False, True):
+                cases.append({"kind": "Addr", "prv": True, "key": "00" + k.to_bytes(32, "big").hex(), "testnet": testnet})
         lens = set(range(0, 201)) | {v + d for v in (55, 56, 63, 64, 119, 120, 127, 128, 183, 184, 191, 192, 247, 248, 255, 256, 511, 512, 1023, 1024) for d in (-1, 0, 1)}
         if T:
             lens |= set(range(0, 1025))
